@@ -70,8 +70,12 @@ pub fn parse_extra(x: &[u8]) -> (Vec<Value>, usize) {
         if id == 1 {
             let vals: Vec<Value> = (0..ln / 8).map(|i| json!(u64le(body, i * 8).min(S32))).collect();
             r.insert("z".into(), json!(vals));
+            // exact values (the capped ones above are for the 32-bit integers of TLC)
+            let exact: Vec<Value> = (0..ln / 8).map(|i| json!(format!("{:016x}", u64le(body, i * 8)))).collect();
+            r.insert("zx".into(), json!(exact));
         } else {
             r.insert("z".into(), json!([]));
+            r.insert("zx".into(), json!([]));
         }
         out.push(Value::Object(r));
         o += 4 + ln;
@@ -86,10 +90,12 @@ pub struct LexOpts {
     pub allow_trailing: bool,
     /// do not decode payloads larger than this
     pub decode_limit: u64,
+    /// emit exact two-limb numbers instead of capped 31-bit ones (C08)
+    pub pair: bool,
 }
 impl Default for LexOpts {
     fn default() -> Self {
-        LexOpts { passwords_any: vec![], allow_trailing: false, decode_limit: 64 << 20 }
+        LexOpts { passwords_any: vec![], allow_trailing: false, decode_limit: 64 << 20, pair: false }
     }
 }
 
@@ -161,21 +167,31 @@ pub fn decode(method: u64, raw: &[u8]) -> (bool, u64, u32) {
 pub const S32: u64 = 2147483647;
 pub struct Nums {
     pub big: Vec<String>,
+    /// real-threshold mode (C08): every quantity is emitted exactly, as a two-limb number
+    /// [v div 2^24, v mod 2^24] (TLC integers are 32-bit; spec module Big.tla)
+    pub pair: bool,
+}
+pub fn big_pair(v: u64) -> Value {
+    json!([v >> 24, v & 0xFF_FFFF])
 }
 impl Nums {
-    pub fn f32(&mut self, v: u64, name: &str) -> u64 {
-        if v == 0xFFFF_FFFF {
-            S32
+    pub fn f32(&mut self, v: u64, name: &str) -> Value {
+        if self.pair {
+            big_pair(v)
+        } else if v == 0xFFFF_FFFF {
+            json!(S32)
         } else {
             self.n(v, name)
         }
     }
-    pub fn n(&mut self, v: u64, name: &str) -> u64 {
-        if v >= S32 {
+    pub fn n(&mut self, v: u64, name: &str) -> Value {
+        if self.pair {
+            big_pair(v)
+        } else if v >= S32 {
             self.big.push(name.to_string());
-            S32
+            json!(S32)
         } else {
-            v
+            json!(v)
         }
     }
 }
@@ -186,7 +202,7 @@ fn err(msg: &str) -> Value {
 
 pub fn lex(src: &dyn Src, opts: &LexOpts) -> Value {
     let flen = src.len();
-    let mut nums = Nums { big: vec![] };
+    let mut nums = Nums { big: vec![], pair: opts.pair };
     if flen < 22 {
         return err("shorter than an end record");
     }
@@ -302,7 +318,7 @@ pub fn lex(src: &dyn Src, opts: &LexOpts) -> Value {
             if r["id"] == 1 {
                 zcount += 1;
                 if zcount == 1 {
-                    z = r["z"].as_array().unwrap().iter().map(|v| v.as_u64().unwrap()).collect();
+                    z = r["zx"].as_array().unwrap().iter().map(|v| u64::from_str_radix(v.as_str().unwrap(), 16).unwrap()).collect();
                 }
             }
         }
@@ -398,7 +414,7 @@ pub fn lex(src: &dyn Src, opts: &LexOpts) -> Value {
                             if r["id"] == 1 {
                                 lzc += 1;
                                 if lzc == 1 {
-                                    lz = r["z"].as_array().unwrap().iter().map(|v| v.as_u64().unwrap()).collect();
+                                    lz = r["zx"].as_array().unwrap().iter().map(|v| u64::from_str_radix(v.as_str().unwrap(), 16).unwrap()).collect();
                                 }
                             }
                         }
@@ -436,7 +452,11 @@ pub fn lex(src: &dyn Src, opts: &LexOpts) -> Value {
                         let mut dd = json!([]);
                         if in_range {
                             let dend = dend.unwrap();
-                            l.insert("rawcrc".into(), json!(hex32(src.crc_range(dstart, csize).unwrap())));
+                            if csize <= opts.decode_limit || !opts.pair {
+                                l.insert("rawcrc".into(), json!(hex32(src.crc_range(dstart, csize).unwrap())));
+                            } else {
+                                l.insert("rawcrc".into(), json!("--------"));
+                            }
                             // data descriptor (flag bit 3): find the shape that matches the central values
                             if lflags & 8 != 0 {
                                 let ccrc = u32le(&h, 16);
@@ -532,5 +552,5 @@ pub fn lex(src: &dyn Src, opts: &LexOpts) -> Value {
     json!({"ok": true, "len": nums.n(flen, "len"), "prefix": nums.n(prefix, "prefix"), "eocd": eocd, "z64": z64,
         "n": nums.n(n, "n"), "cd_start": nums.n(cd_start, "cd_start"), "cd_end": nums.n(cd_end, "cd_end"),
         "cd": cd, "lf": lf, "gaps": gaps, "overlaps": overlaps, "big": nums.big.clone(),
-        "digest": hid(&src.get(0, flen.min(1 << 30) as usize).unwrap_or_default())})
+        "digest": if opts.pair { "-".to_string() } else { hid(&src.get(0, flen.min(1 << 30) as usize).unwrap_or_default()) }})
 }
